@@ -75,6 +75,7 @@ type Case struct {
 	Schema  pmodel.Schema `json:"schema"`
 	Msg     []byte        `json:"msg"`     // reference-encoded proto message
 	Threads [][]Op        `json:"threads"` // one operation list per goroutine
+	I2S     bool          `json:"int64_to_string"` // the shared p2j converter is created with Int642String
 }
 
 var badJSONForProto = []string{`{"zz_unknown": tru`, `{"zz_unknown":`, `{"zz_unknown":[1,`, `{"zz_unknown":{"a":1},`, `{"zz_unknown":"abc`, `{`, `{"zz_unknown":1,"zz_2":nul}`, `[`}
@@ -197,6 +198,7 @@ type env struct {
 	pj       p2j.BinaryConv
 	jp       j2p.BinaryConv
 	pdesc    *dproto.TypeDescriptor
+	pjAlone  []byte // the document p2j gives for the message when nothing runs beside it
 	md       protoreflect.MessageDescriptor
 	ref      proto.Message
 	fieldRaw map[int16][]byte
@@ -343,6 +345,12 @@ func (e *env) run(op Op, keep *[]held) (msg string) {
 		*keep = append(*keep, held{"p2j result", js, append([]byte(nil), js...)})
 		if _, perr := jmodel.Parse(js); perr != nil {
 			return fmt.Sprintf("p2j output is not valid JSON: %v", perr)
+		}
+		if !bytes.Equal(js, e.pjAlone) {
+			return fmt.Sprintf("p2j on the shared converter gives another document than the same conversion with nothing running beside it: %s vs %s", trunc(js), trunc(e.pjAlone))
+		}
+		if cs.I2S {
+			break // (whether j2p reads quoted 64-bit integers back is not this check's subject)
 		}
 		back, err := e.jp.Do(ctx, e.pdesc, js)
 		if err != nil {
@@ -574,7 +582,7 @@ func check(c *pbt.Ctx, cs Case) {
 		c.Failf("harness-schema", "schema rejected: %v %v", err, pcomp.SvcErr)
 	}
 	e := &env{cs: cs, comp: comp, cut: cut, enc: tm.Encode(cs.V), tj: t2j.NewBinaryConv(conv.Options{}), jt: j2t.NewBinaryConv(conv.Options{}),
-		pj: p2j.NewBinaryConv(conv.Options{}), jp: j2p.NewBinaryConv(conv.Options{}), fieldRaw: map[int16][]byte{}}
+		pj: p2j.NewBinaryConv(conv.Options{Int642String: cs.I2S}), jp: j2p.NewBinaryConv(conv.Options{}), fieldRaw: map[int16][]byte{}}
 	e.template = generic.PathNode{Node: generic.NewNode(thrift.STRUCT, append(make([]byte, 0, len(e.enc)+16), e.enc...))}
 	if err := e.template.Load(true, &generic.Options{}); err != nil {
 		c.Failf("harness-template", "Load of the template fails: %v", err)
@@ -597,6 +605,14 @@ func check(c *pbt.Ctx, cs Case) {
 	}
 	e.md = pcomp.Msg("pkg.Root")
 	e.pdesc = pcomp.Svc.LookupMethodByName("Call").Input()
+	{
+		alone := p2j.NewBinaryConv(conv.Options{Int642String: cs.I2S})
+		doc, aerr := alone.Do(context.Background(), e.pdesc, append([]byte(nil), cs.Msg...))
+		if aerr != nil {
+			c.Failf("harness-p2j", "p2j of the reference message fails: %v", aerr)
+		}
+		e.pjAlone = append([]byte(nil), doc...)
+	}
 	e.ref, err = pmodel.Unmarshal(e.md, cs.Msg)
 	if err != nil {
 		c.Failf("harness-msg", "%v", err)
@@ -673,7 +689,7 @@ var Prop = pbt.Register(pbt.Prop[Case]{
 			t.Fatalf("generator produced an invalid schema: %v", err)
 		}
 		m := pmodel.GenMessage(t, comp.Msg("pkg.Root"), pmodel.MsgOpts{MaxDepth: 2, MaxElems: 3, FiniteOnly: true})
-		cs := Case{U: u, V: doc.Denote, Doc: doc.Text, Schema: sc, Msg: pmodel.Marshal(m)}
+		cs := Case{U: u, V: doc.Denote, Doc: doc.Text, Schema: sc, Msg: pmodel.Marshal(m), I2S: rapid.Bool().Draw(t, "int642string")}
 		ng := rapid.IntRange(1, 8).Draw(t, "goroutines")
 		for g := 0; g < ng; g++ {
 			var ops []Op
